@@ -1097,6 +1097,7 @@ class SKEData(Packet):
 
     def __copy__(self):
         skd = self.__class__()
+        skd.header = copy.copy(self.header)
         skd.ct = self.ct[:]
         return skd
 
@@ -1569,6 +1570,7 @@ class IntegrityProtectedSKEDataV1(IntegrityProtectedSKEData):
 
     def __copy__(self):
         skd = self.__class__()
+        skd.header = copy.copy(self.header)
         skd.ct = self.ct[:]
         return skd
 
